@@ -39,7 +39,7 @@ class Scratch:
         return p
 
 
-_TOKEN = re.compile(r'<<\s*"(VERDICT|DISAGREE|NOTE|COUNT)"\s*,')
+_TOKEN = re.compile(r'<<\s*"(VERDICT|DISAGREE|NOTE|COUNT|ORDER|BEHAVIOUR)"\s*,')
 
 
 def _match_brackets(text, start):
